@@ -43,7 +43,7 @@ class InjectedValueError(ValueError):
     """A ValueError-family failure (e.g. numpy refusing a truncated tile)."""
 
 
-FAULTS = {"runtime": InjectedFault, "oserror": InjectedOSError, "valueerror": InjectedValueError}
+FAULTS = {"runtime": InjectedFault, "oserror": InjectedOSError, "valueerror": InjectedValueError, "kill": vmp.Killed}
 INJECTED = (InjectedFault, InjectedOSError, InjectedValueError)
 
 
